@@ -32,6 +32,13 @@ IMM_TYPES = (type(None), bool, int, float, complex, str, bytes, np.generic, type
              np.dtype, frozenset)
 
 
+def _class_with_copy(v):
+    """a class object whose `copy` is an unbound method (`self.kind = dict`, `self.dtype = np.float64`):
+    `Copyable.copy` calls `v.copy()` on it and gets a TypeError, which it does not catch - not an immutable the model
+    may share silently; encoded as a foreign object (kind `other`, so that the table obligation fails loudly)"""
+    return isinstance(v, type) and hasattr(v, "copy")
+
+
 def qual(cls):
     return cls.__module__ + "." + cls.__qualname__
 
@@ -343,7 +350,7 @@ class Enc:
 
     def val(self, v, path):
         from menpo.base import Copyable
-        if isinstance(v, IMM_TYPES):
+        if isinstance(v, IMM_TYPES) and not _class_with_copy(v):
             return ("i", 0)
         if isinstance(v, tuple) and all(self._is_imm(x) for x in v):
             return ("i", 0)
@@ -378,7 +385,8 @@ class Enc:
         return self._add(v, ("N", "F", slots, v), path)
 
     def _is_imm(self, v):
-        return isinstance(v, IMM_TYPES) or (isinstance(v, tuple) and all(self._is_imm(x) for x in v))
+        return ((isinstance(v, IMM_TYPES) and not _class_with_copy(v))
+                or (isinstance(v, tuple) and all(self._is_imm(x) for x in v)))
 
     def _key(self, k):
         return "k" + "".join(c if (c.isascii() and c.isalnum()) else "_%x_" % ord(c) for c in str(k))
